@@ -4,7 +4,7 @@
    stream is IoErr UnexpectedEof; c_dec is `load`; results are IoOk / IoErr kind / IoPanic. A sink accepts
    sk_room more bytes and then fails every write with sk_err; write_seq is a sequence of write_all calls chained
    with `?`, which is what every serialize is. Theorems hold in both build modes m. *)
-From Coq Require Import NArith List Bool.
+From Coq Require Import NArith List Bool Lia.
 Require Import SDS.Model.Mach SDS.Model.Bits SDS.Model.Raw SDS.Model.IntVec SDS.Model.BitVec SDS.Model.Ser.
 Require Import SDS.gen.Consts SDS.Spec.Stream SDS.Proofs.SerProof SDS.Proofs.SerTypes SDS.Proofs.SerSupports SDS.Proofs.SerMain.
 Import ListNotations.
@@ -94,6 +94,19 @@ Proof. exact sink_fits. Qed.
 Print Assumptions C14_sink_budget.
 Print Assumptions C14_sink_fits.
 
+(* finding F7 (fixed in /repo by commit da7760b): the code used to ignore how many bytes io::copy had copied.
+   Its model accepts a stream that ends inside the optional structure, so the theorem above was false for it. *)
+Definition skip_option_before_fix (m : mode) (s : list byte) : io (unit * list byte) :=
+  let+ (n, r) := dec_elem s in
+  if 0 <? n then
+    let+ expected := io_of_res (umul m n bits_WORD_BYTES) in
+    IoOk (tt, skipn (N.to_nat (N.min expected (lenN r))) r)
+  else IoOk (tt, r).
+Example C14_skip_before_fix_refuted :
+  exists m s k, (k < length s)%nat /\ s = c_enc (option_codec vec_u64_codec) (Some [1; 2; 3]) /\
+                skip_option_before_fix m (firstn k s) = IoOk (tt, []).
+Proof. exists Debug, (c_enc (option_codec vec_u64_codec) (Some [1; 2; 3])), 17%nat. repeat split. vm_compute. lia. Qed.
+
 (* NOT in this round (listed under "partial" in tools/props.d/C14.json): buffered file writers under a
    persistent file-size limit (close = IoOk -> file complete), which needs the writer model of C12;
    mapped views of truncated files (C13). *)
@@ -124,8 +137,8 @@ Example ex_malformed_raw :
   c_dec (raw_codec Debug) (flat_map le64 [2 ^ 64 - 1; 0]) = IoPanic POverflow /\
   c_dec (raw_codec Release) (flat_map le64 [2 ^ 64 - 1; 0]) = IoOk (mkraw (2 ^ 64 - 1) [], []).
 Proof. split; vm_compute; reflexivity. Qed.
-Example ex_malformed_vec : forall m, c_dec vec_u64_codec (flat_map le64 [2 ^ 60; 1; 2]) = IoPanic POverflow.
-Proof. intros m. vm_compute. reflexivity. Qed.
+Example ex_malformed_vec : c_dec vec_u64_codec (flat_map le64 [2 ^ 60; 1; 2]) = IoPanic POverflow.
+Proof. vm_compute. reflexivity. Qed.
 Example ex_sink : write_seq [le64 1; le64 2; [7; 7; 7]] (mksink [] 10 OtherErr)
   = (mksink [1; 0; 0; 0; 0; 0; 0; 0; 2; 0] 0 OtherErr, IoErr OtherErr).
 Proof. vm_compute. reflexivity. Qed.
